@@ -376,6 +376,8 @@ package internal
 //@   ensures F2: doCalls == old(doCalls) + 1 && (lastErr(c) != nil || lastStatus(c) != 207) ==> resp == nil && err != nil && (lastErr(c) == nil && lastStatus(c) / 100 != 2 ==> httpCode(err) == lastStatus(c))
 //@   ensures F3: err == nil ==> resp != nil && doCalls == old(doCalls) + 1 && lastErr(c) == nil && lastStatus(c) == 207
 //@   ensures F4: doCalls == old(doCalls) || doCalls == old(doCalls) + 1
+//@   -- the response handed back is the single response of the decoded document
+//@   ensures F5: err == nil ==> (let d : decoded(xmlDecoderOf(doResp(c.http, lastReq).Body), "internal.MultiStatus") in len(d.Responses) == 1 && *resp == d.Responses[0])
 //@ func internal.(*Client).SyncCollection(c, ctx, path, syncToken, level, limit, prop) (ms, err)
 //@   requires R1: clientOK(c) && (level == DepthZero || level == DepthOne || level == DepthInfinity)
 //@   allocates
